@@ -82,13 +82,13 @@ theorem Ext.addEdge {C : Nat → Prop} (g0 g : Graph) (s d : Nat) (k : EK) (h : 
 
 theorem attachObservers_ext {C : Nat → Prop} (g0 : Graph) (enew child : Nat) (hC : C child) :
     ∀ (obs : List Nat) (g : Graph) (prev : Option Nat),
-    Ext C g0 g → (∀ p, prev = some p → g0.size ≤ p) → Ext C g0 (attachObservers g enew child obs prev)
+    Ext C g0 g → (obs = [] → ∀ p, prev = some p → g0.size ≤ p) → Ext C g0 (attachObservers g enew child obs prev)
   | [], g, prev, h, hp => by
     cases prev with
     | none => simpa [attachObservers] using h
     | some p =>
       simp only [attachObservers]
-      exact Ext.addEdge g0 g p child .before h (Or.inr ⟨hp p rfl, hC⟩)
+      exact Ext.addEdge g0 g p child .before h (Or.inr ⟨hp rfl p rfl, hC⟩)
   | o :: rest, g, prev, h, hp => by
     simp only [attachObservers]
     have hn : g0.size ≤ g.size := h.size_le
@@ -99,7 +99,7 @@ theorem attachObservers_ext {C : Nat → Prop} (g0 : Graph) (enew child : Nat) (
         | none => exact h1
         | some p => exact Ext.addEdge g0 _ p g.size .before h1 (Or.inl hn)
       · exact Or.inl hn
-    · intro p hpe
+    · intro _ p hpe
       cases hpe
       exact hn
 
@@ -203,7 +203,7 @@ def fired (obs : List Nat) : Graph → List Nat → Nat
   | g, h :: hs =>
     if obs.isEmpty then 0 else
     match (g.succs h).head?, errorNewOf g h with
-    | some child, some enew => fired obs (attachObservers g enew child obs none) hs + 1
+    | some child, some enew => fired obs (attachObservers g enew child obs (some h)) hs + 1
     | _, _ => fired obs g hs
 
 /-- how many fallible nodes get a `MatchBranching` node -/
@@ -237,8 +237,8 @@ theorem splice_fired (obs : List Nat) (hne : obs.isEmpty = false) (g0 : Graph) (
     have hc2 := hext.child x hx c hc'
     have he2 := hext.errorNewOf hc x hx e he
     have hC : ChildOf g0 all c := ⟨x, hall x List.mem_cons_self, hc'⟩
-    have hext2 := attachObservers_ext g0 e c hC obs g none hext (by simp)
-    obtain ⟨ih1, ih2⟩ := splice_fired obs hne g0 hc hs (attachObservers g e c obs none) all
+    have hext2 := attachObservers_ext g0 e c hC obs g (some x) hext (fun h0 => by simp [h0] at hne)
+    obtain ⟨ih1, ih2⟩ := splice_fired obs hne g0 hc hs (attachObservers g e c obs (some x)) all
       (fun y hy => hall y (List.mem_cons_of_mem _ hy)) hext2 (fun y hy => hel y (List.mem_cons_of_mem _ hy))
     constructor
     · simp only [fired, hne, Bool.false_eq_true, ↓reduceIte, hc2, he2, ih1, List.length_cons]
@@ -439,8 +439,11 @@ theorem splice_closed (obs : List Nat) : ∀ (hs : List Nat) (g : Graph), Closed
     · split
       · rename_i child enew hc he
         apply splice_closed obs hs
-        exact attachObservers_closed enew child obs g none h (errorNewOf_lt h he)
-          (succs_lt h (List.mem_of_mem_head? hc)) (by simp)
+        have hx : x < g.size := by
+          obtain ⟨e, hee, hsrc, _⟩ := mem_succs.mp (List.mem_of_mem_head? hc)
+          rw [← hsrc]; exact (h e hee).1
+        exact attachObservers_closed enew child obs g (some x) h (errorNewOf_lt h he)
+          (succs_lt h (List.mem_of_mem_head? hc)) (by intro p hp; cases hp; exact hx)
       · exact splice_closed obs hs g h
 
 theorem Ext.matcherSuccs_eq {C : Nat → Prop} {g g' : Graph} (h : Ext C g g') (hc : Closed g) (x : Nat)
@@ -648,17 +651,19 @@ theorem filter_singleton_of {l : List Nat} {a : Nat} {q : Nat → Bool} (hnd : l
       simp only [List.filter_cons, hb, Bool.false_eq_true, ↓reduceIte]
       exact ih hnd'.2 ha (fun n hn => hall n (List.mem_cons_of_mem _ hn))
 
-/-- **the chain the splice builds for one error handler**: in `attachObservers g enew child obs none`, for a
+/-- **the chain the splice builds for one error handler**: in `attachObservers g enew child obs prev` (`prev` = nothing,
+    or the error handler itself: a node WITH an output, after which the first observer must run), for a
     `child` in front of which nothing is inlined yet, the chain of output-less nodes that happen before `child`
     is exactly the new nodes, in order, and they are the observers `obs`, in order. -/
 theorem attachObservers_chain (g : Graph) (hc : Closed g) (enew child : Nat) (hchild : child < g.size)
-    (hub : unitBefores g child = []) (obs : List Nat) :
-    chainOf (attachObservers g enew child obs none) (attachObservers g enew child obs none).size child =
+    (hub : unitBefores g child = []) (obs : List Nat) (prev : Option Nat)
+    (hprev : ∀ p, prev = some p → p < g.size ∧ isUnit (g.kind p) = false) (hne : obs = [] → prev = none) :
+    chainOf (attachObservers g enew child obs prev) (attachObservers g enew child obs prev).size child =
         (List.range obs.length).map (g.size + ·) ∧
-    ∀ i (hi : i < obs.length), (attachObservers g enew child obs none).kind (g.size + i) = .observer obs[i] := by
-  have hnodes := attachObservers_nodes obs g enew child none
-  have hedges := attachObservers_edges enew child obs g none
-  generalize hg' : attachObservers g enew child obs none = g' at hnodes hedges ⊢
+    ∀ i (hi : i < obs.length), (attachObservers g enew child obs prev).kind (g.size + i) = .observer obs[i] := by
+  have hnodes := attachObservers_nodes obs g enew child prev
+  have hedges := attachObservers_edges enew child obs g prev
+  generalize hg' : attachObservers g enew child obs prev = g' at hnodes hedges ⊢
   have hsize : g'.size = g.size + obs.length := by simp [Graph.size, hnodes]
   have hkold : ∀ n, n < g.size → g'.kind n = g.kind n := by
     intro n hn
@@ -672,7 +677,7 @@ theorem attachObservers_chain (g : Graph) (hc : Closed g) (enew child : Nat) (hc
   refine ⟨?_, hknew⟩
   -- the happens-before edges of `g'` that end in a new node or in `child`
   have hbef : ∀ e ∈ g'.edges, e.kind = .before → e.dst = child ∨ g.size ≤ e.dst →
-      e ∈ g.edges ∨ e ∈ genEdges enew child g.size obs.length none := by
+      e ∈ g.edges ∨ e ∈ genEdges enew child g.size obs.length prev := by
     intro e he _ _
     rw [hedges] at he
     exact List.mem_append.mp he
@@ -686,20 +691,23 @@ theorem attachObservers_chain (g : Graph) (hc : Closed g) (enew child : Nat) (hc
       apply List.filter_eq_nil_iff.mpr
       intro p _ hq
       simp only [Bool.and_eq_true, List.any_eq_true, beq_iff_eq] at hq
-      obtain ⟨⟨e, he, ⟨⟨_, hd⟩, hk⟩⟩, _⟩ := hq
+      obtain ⟨⟨e, he, ⟨⟨hs, hd⟩, hk⟩⟩, hu⟩ := hq
       rw [hedges] at he
       rcases List.mem_append.mp he with he | he
       · have := (hc e he).2
         omega
-      · rcases genEdges_before enew child _ _ none e he hk with ⟨h1, _⟩ | ⟨h1, _, _⟩ | ⟨_, _, h3⟩
+      · rcases genEdges_before enew child _ _ prev e he hk with ⟨h1, _⟩ | ⟨h1, _, _⟩ | ⟨_, _, h3⟩
         · omega
         · omega
-        · cases h3
+        · -- the edge from `prev` (the error handler): it has an output, nothing is inlined for it
+          obtain ⟨hpl, hpu⟩ := hprev e.src h3
+          rw [← hs, hkold _ hpl, hpu] at hu
+          cases hu
     · rename_i hi0
       rw [unitBefores_eq_filter]
       apply filter_singleton_of List.nodup_range
       · exact List.mem_range.mpr (by omega)
-      · have hlink := (genEdges_links enew child obs.length g.size none).1 i (by omega) hi
+      · have hlink := (genEdges_links enew child obs.length g.size prev).1 i (by omega) hi
         have hk := hknew (i - 1) (by omega)
         have e1 : g.size + (i - 1) = g.size + i - 1 := by omega
         rw [e1] at hk
@@ -713,10 +721,10 @@ theorem attachObservers_chain (g : Graph) (hc : Closed g) (enew child : Nat) (hc
         rcases List.mem_append.mp he with he | he
         · have := (hc e he).2
           omega
-        · rcases genEdges_before enew child _ _ none e he hk with ⟨h1, _⟩ | ⟨_, _, h3⟩ | ⟨_, _, h3⟩
+        · rcases genEdges_before enew child _ _ prev e he hk with ⟨h1, _⟩ | ⟨_, _, h3⟩ | ⟨_, h2, _⟩
           · omega
           · omega
-          · cases h3
+          · omega
   -- the chain in front of the `i`-th new node
   have hchain : ∀ i, i < obs.length → ∀ fuel, i < fuel →
       chainOf g' fuel (g.size + i) = (List.range i).map (g.size + ·) := by
@@ -743,7 +751,9 @@ theorem attachObservers_chain (g : Graph) (hc : Closed g) (enew child : Nat) (hc
   | zero =>
     -- no observers: nothing was added in front of `child`
     have hnil : obs = [] := List.length_eq_zero_iff.mp hk
+    have hpn : prev = none := hne hnil
     subst hnil
+    subst hpn
     have : g' = g := by rw [← hg']; rfl
     subst this
     have hsz : 0 < g'.size := by omega
@@ -755,7 +765,7 @@ theorem attachObservers_chain (g : Graph) (hc : Closed g) (enew child : Nat) (hc
       rw [unitBefores_eq_filter]
       apply filter_singleton_of List.nodup_range
       · exact List.mem_range.mpr (by omega)
-      · have hlink := (genEdges_links enew child obs.length g.size none).2 (by omega)
+      · have hlink := (genEdges_links enew child obs.length g.size prev).2 (by omega)
         have hkk := hknew k (by omega)
         simp only [Bool.and_eq_true, List.any_eq_true, beq_iff_eq]
         have e1 : g.size + obs.length - 1 = g.size + k := by omega
@@ -775,11 +785,11 @@ theorem attachObservers_chain (g : Graph) (hc : Closed g) (enew child : Nat) (hc
             refine ⟨hpl, ?_, e, he, hs, hd, hkb⟩
             rw [← hkold p hpl]; exact hu
           rw [hub] at this; cases this
-        · rcases genEdges_before enew child _ _ none e he hkb with ⟨_, h | h⟩ | ⟨h1, _, _⟩ | ⟨_, _, h3⟩
+        · rcases genEdges_before enew child _ _ prev e he hkb with ⟨_, h | h⟩ | ⟨h1, _, _⟩ | ⟨_, h2, _⟩
           · omega
           · omega
           · omega
-          · cases h3
+          · omega
     rw [hsize, hk]
     have hf : g.size + (k + 1) = (g.size + k) + 1 := by omega
     rw [hf]
